@@ -54,6 +54,8 @@ type caseJSON struct {
 	Tx       *c06lib.TxCase `json:"tx,omitempty"`
 	Mode     string         `json:"mode,omitempty"` // alone | concurrent
 	Observed [][2]string    `json:"observed,omitempty"`
+	SetStart []int          `json:"set_start,omitempty"`
+	SetAfter []int          `json:"set_after,omitempty"`
 	// intern
 	Chains [][]string `json:"chains,omitempty"`
 	// memo
@@ -84,6 +86,7 @@ type runner struct {
 	shards map[string]*vh.Shard
 	order  []string
 	syms   map[string]map[string]string // per shard: byte string -> name of its prelude definition
+	txCount int
 	itPrev []string                     // intern table as printed for the previous case (prelude itN)
 	itName string
 }
@@ -160,6 +163,59 @@ func (r *runner) txTerm(shard string, c c06lib.TxCase, observed [][2]string) str
 	return fmt.Sprintf("(CTx %s %s %s %s %s)", r.symList(shard, c06lib.StaticEx), r.sym(shard, c06lib.Needle), r.kvSyms(shard, c.Args()), r.symList(shard, c.Ecol()), r.kvSyms(shard, observed))
 }
 
+// setTerm: the settings a transaction had right after NewTransaction and after its ctl rules, for the
+// settings machine of Conc.v (st_alone): every setting must be the WAF-wide one at the start whatever
+// transaction used the pooled object before.
+// symNat: like sym, for a vector of numbers.
+func (r *runner) symNat(shard string, l []int) string {
+	key := "nat:" + natList(l)
+	if r.syms == nil {
+		r.syms = map[string]map[string]string{}
+	}
+	m := r.syms[shard]
+	if m == nil {
+		m = map[string]string{}
+		r.syms[shard] = m
+	}
+	if n, ok := m[key]; ok {
+		return n
+	}
+	n := fmt.Sprintf("v%s_%d", strings.ToLower(strings.ReplaceAll(shard, "C06_", "")), len(m))
+	m[key] = n
+	sh := r.shard(shard)
+	sh.Prelude += fmt.Sprintf("\nDefinition %s : list nat := %s.", n, natList(l))
+	return n
+}
+
+func (r *runner) setTerm(shard string, c c06lib.TxCase, waf, start, after []int) string {
+	var acts []string
+	if len(c.Ecol()) > 0 {
+		acts = append(acts, "SSet 11 2") // ruleRemoveTargetByID gets the keys 100 and 300
+	}
+	for _, a := range c.CtlActs() {
+		if a.Inc {
+			acts = append(acts, fmt.Sprintf("SInc %d", a.Idx))
+		} else {
+			acts = append(acts, fmt.Sprintf("SSet %d %d", a.Idx, a.Val))
+		}
+	}
+	return fmt.Sprintf("(CSet %s %s %s %s)", r.symNat(shard, waf), vh.List(acts), r.symNat(shard, start), r.symNat(shard, after))
+}
+
+// addTxTerms emits the Coq cases of one observed transaction: CSet always, CTx when the transaction
+// carries no ctl marker (rule 100's outcome is then the one the exclusion-merge machine models).
+func (r *runner) addTxTerms(shard string, c c06lib.TxCase, cj caseJSON, m [][2]string, waf, start, after []int) {
+	if c.Plain() {
+		r.add(shard, r.txTerm(shard, c, m), cj)
+	}
+	if len(start) > 0 && len(waf) == len(start) {
+		cs := cj
+		cs.Kind = "tx"
+		cs.SetStart, cs.SetAfter = start, after
+		r.add(shard, r.setTerm(shard, c, waf, start, after), cs)
+	}
+}
+
 func (r *runner) runTxAlone(c c06lib.TxCase, shard string) {
 	o, err := c06lib.RunTx(r.waf, "", c)
 	cj := caseJSON{Kind: "tx", Tx: &c, Mode: "alone"}
@@ -172,8 +228,23 @@ func (r *runner) runTxAlone(c c06lib.TxCase, shard string) {
 		m = [][2]string{}
 	}
 	cj.Observed = m
-	r.add(shard, r.txTerm(shard, c, m), cj)
+	r.addTxTerms(shard, c, cj, m, o.WafSet, o.SetStart, o.SetAfter)
 	r.res.OracleEvaluations++
+	// the same transaction on a WAF nobody else has used: truly alone
+	if fw, err := c06lib.NewWAF(c06lib.Directives("", 0)); err == nil {
+		if oa, err := c06lib.RunTx(fw, "", c); err == nil && oa.String() != o.String() {
+			r.res.OracleFailures = append(r.res.OracleFailures, vh.OracleFailure{Key: "c06-outcome-differs-from-alone",
+				What: fmt.Sprintf("a transaction on the long-lived shared WAF (after %d earlier transactions) differs from the same transaction alone on a fresh WAF:\n got   %s\n alone %s", r.txCount, o.String(), oa.String()), Case: cj})
+		}
+		_ = fw.Close()
+		r.res.OracleEvaluations++
+	}
+	r.txCount++
+	if len(c.Ctl) > 0 {
+		r.dist.Inc("tx: fires a per-transaction ctl")
+	} else if c.Pad > 0 || c.Resp != "" || c.Raw != "" {
+		r.dist.Inc("tx: no ctl, outcome sensitive to a per-transaction setting")
+	}
 	if s := c06lib.SpareSlotsWritten(r.waf); s != "" {
 		r.res.OracleFailures = append(r.res.OracleFailures, vh.OracleFailure{Key: "c06-shared-rule-written",
 			What: "an evaluation step wrote into the shared rule (in-place append into the Exceptions backing array, F27): " + s, Case: cj})
@@ -209,6 +280,15 @@ func sysTxCases() []c06lib.TxCase {
 		out = append(out, c06lib.TxCase{Get: args[:2], Post: args[2:], Ex: ex})
 	}
 	out = append(out, c06lib.TxCase{Get: [][2]string{}, Post: [][2]string{}, Ex: []string{"a"}})
+	// every member of the ctl family, each followed by a transaction WITHOUT marker whose outcome is
+	// sensitive to the setting (on the sequential pass the second one reuses the first one's object)
+	sens := c06lib.TxCase{Get: args[:2], Post: args[2:4], Ex: []string{}, Pad: 200, Resp: strings.Repeat("a", 50) + " respevil tail"}
+	raw := c06lib.TxCase{Get: args[:2], Post: [][2]string{}, Ex: []string{}, Raw: "a raw body with rawevil inside", Resp: strings.Repeat("a", 50) + " respevil"}
+	for _, sp := range c06lib.Ctls {
+		t := sens
+		t.Ctl = []string{sp.Name}
+		out = append(out, t, sens, raw)
+	}
 	return out
 }
 
@@ -405,6 +485,9 @@ type stressOut struct {
 	Samples []struct {
 		Tx       c06lib.TxCase `json:"tx"`
 		Observed [][2]string   `json:"observed"`
+		SetStart []int         `json:"set_start"`
+		SetAfter []int         `json:"set_after"`
+		WafSet   []int         `json:"waf_set"`
 	} `json:"samples"`
 	Audit *struct {
 		Writers [][]string `json:"writers"`
@@ -590,7 +673,7 @@ func (r *runner) runStress(bin string, race bool, sp stressSpec, shard string) {
 		if obs == nil {
 			obs = [][2]string{}
 		}
-		r.add(shard, r.txTerm(shard, tx, obs), caseJSON{Kind: "tx", Tx: &tx, Mode: "concurrent", Observed: obs, Seed: sp.Seed, Procs: sp.Procs})
+		r.addTxTerms(shard, tx, caseJSON{Kind: "tx", Tx: &tx, Mode: "concurrent", Observed: obs, Seed: sp.Seed, Procs: sp.Procs}, obs, s.WafSet, s.SetStart, s.SetAfter)
 		r.dist.Inc("tx sampled inside the concurrent run")
 	}
 	if so.Audit != nil {
